@@ -145,6 +145,19 @@ class SReal:
         return SReal(self.ctx, self.t / t)
 
 
+def _mark_running(st, scope_state):
+    """put a scope state into the State's private collection of running scope states, whatever container the real class uses for it"""
+    c = getattr(st, "_running_scope_states", None)
+    if isinstance(c, set):
+        c.add(scope_state)
+    elif isinstance(c, dict):
+        c[scope_state] = None
+    elif isinstance(c, list):
+        c.append(scope_state)
+    else:
+        raise Unsupported("State keeps its running scope states in a way the sidecar does not know")
+
+
 def _sint_rmul(self, o):
     return NotImplemented
 
@@ -183,7 +196,7 @@ def state_unit(ctx):
     # _running_scope_states == {s | running > 0}: eager split
     for s in scopes:
         if ctx.branch(vals[(s, "running")] > 0, f"scope-{s[0]}-running"):
-            st._running_scope_states.add(st.section_scope_mapping["run"][s])
+            _mark_running(st, st.section_scope_mapping["run"][s])
     we0 = [st.section_scope_mapping["run"][s].weighted_elapsed.t for s in scopes]
     rc0 = st.running_count.t
     t_prev = now["t"]
@@ -217,7 +230,7 @@ def state_unit(ctx):
         ctx.check("wf:running_count==sum-of-running", st.running_count.t == sum(st.section_scope_mapping["run"][s].running.t for s in scopes))
         for s in scopes:
             x = st.section_scope_mapping["run"][s]
-            ctx.check("wf:_running_scope_states=={s|running>0}", (x.running.t > 0) if x in st._running_scope_states else (x.running.t <= 0))
+            ctx.check("wf:_running_scope_states=={s|running>0}", (x.running.t > 0) if any(y is x for y in st._running_scope_states) else (x.running.t <= 0))
         elapsed = now["t"] - t_prev
         dsum = sum(st.section_scope_mapping["run"][s].weighted_elapsed.t - w for s, w in zip(scopes, we0))
         ctx.check("elapsed:sum-of-weighted_elapsed-grows-by-exactly-the-elapsed-time-while-something-was-running,else-not-at-all",
@@ -716,7 +729,7 @@ def _replay_elapsed(ob):
 
     from ujvc.z3env import REPO_SRC
 
-    p = subprocess.run(["/venv/bin/python", "-c", ELAPSED_SCRIPT], env=dict(os.environ, PYTHONPATH=REPO_SRC), capture_output=True, text=True, timeout=120)
+    p = __import__('ujvc.units', fromlist=['run_native_p']).run_native_p(["/venv/bin/python", "-c", ELAPSED_SCRIPT], env=dict(os.environ, PYTHONPATH=REPO_SRC), timeout=120)
     return {"reproduced": p.returncode == 1, "detail": (p.stdout + p.stderr)[-2000:], "script": ELAPSED_SCRIPT}
 
 
@@ -726,7 +739,7 @@ def _replay_final(ob):
 
     from ujvc.z3env import REPO_SRC
 
-    p = subprocess.run(["/venv/bin/python", "-c", FINAL_RENDER_SCRIPT], env=dict(os.environ, PYTHONPATH=REPO_SRC), capture_output=True, text=True, timeout=120)
+    p = __import__('ujvc.units', fromlist=['run_native_p']).run_native_p(["/venv/bin/python", "-c", FINAL_RENDER_SCRIPT], env=dict(os.environ, PYTHONPATH=REPO_SRC), timeout=120)
     return {"reproduced": p.returncode == 1, "detail": (p.stdout + p.stderr)[-2000:], "script": FINAL_RENDER_SCRIPT}
 
 
@@ -736,7 +749,7 @@ def _replay(ob):
 
     from ujvc.z3env import REPO_SRC
 
-    p = subprocess.run(["/venv/bin/python", "-c", F5_SCRIPT], env=dict(os.environ, PYTHONPATH=REPO_SRC), capture_output=True, text=True, timeout=120)
+    p = __import__('ujvc.units', fromlist=['run_native_p']).run_native_p(["/venv/bin/python", "-c", F5_SCRIPT], env=dict(os.environ, PYTHONPATH=REPO_SRC), timeout=120)
     return {"reproduced": p.returncode == 1, "detail": (p.stdout + p.stderr)[-2000:], "script": F5_SCRIPT}
 
 
